@@ -22,11 +22,12 @@ namespace SkNet.GraphML
 open SkNet.Ingest
 
 inductive PyErr
-  | keyError | valueError
+  | keyError | valueError | typeError | attributeError
 deriving DecidableEq, Repr
 
 def PyErr.show : PyErr → String
-  | .keyError => "KeyError" | .valueError => "ValueError"
+  | .keyError => "KeyError" | .valueError => "ValueError" | .typeError => "TypeError"
+  | .attributeError => "AttributeError"
 
 /-- `s.endswith(t)` -/
 def endsWith (s t : String) : Bool := t.toList.isSuffixOf s.toList
@@ -47,6 +48,8 @@ structure Key where
   id : Option String
   name : Option String
   type : Option String
+  /-- the attribute `for` -/
+  for_ : Option String
   /-- texts of the children whose tag ends with `default` -/
   defaults : List String
 deriving Repr
@@ -60,23 +63,48 @@ structure Doc where
   keys : List Key
 deriving Repr
 
-/-- `java_type_to_python_type` restricted to the weight: the numpy dtype kind, `none` for an unknown type -/
-def kindOfType (t : String) : Option Kind :=
+/-- the Python type `java_type_to_python_type` returns -/
+inductive PType
+  | bool | int | float | str
+deriving DecidableEq, Repr
+
+/-- `java_type_to_python_type`: `none` when it returns `None` (an unknown type name) -/
+def ptypeOf (t : String) : Option PType :=
   if t = "boolean" then some .bool
-  else if t = "int" then some .int
-  else if t = "long" ∨ t = "float" ∨ t = "double" then some .float
+  else if t = "int" ∨ t = "long" then some .int
+  else if t = "string" then some .str
+  else if t = "float" ∨ t = "double" then some .float
   else none
 
-/-- `weight_type(text)`: `int(text)`, `float(text)`, `bool(text)` -/
-def convert (num : String → Option Rat) (k : Kind) (text : String) : Except PyErr Rat :=
-  match k with
-  | .bool => .ok (if text = "" then 0 else 1)
-  | .int => match num text with
+/-- numpy dtype kind of the weights (`np.full(n_edges, default_weight, dtype=weight_type)`; an unknown type
+    gives `dtype=None`, i.e. the integer default) -/
+def kindOf : Option PType → Kind
+  | some .bool => .bool
+  | some .int => .int
+  | some .float => .float
+  | some .str => .float
+  | none => .int
+
+def isSpaceChar (c : Char) : Bool := c = ' ' || c = '\t' || c = '\n' || c = '\r'
+
+/-- `text.strip().lower()` -/
+def trimLower (s : String) : String :=
+  String.ofList (((s.toList.dropWhile isSpaceChar).reverse.dropWhile isSpaceChar).reverse.map Char.toLower)
+
+/-- `parse_value(value_type, text)`: `int(text)`, `float(text)`, `str(text)`, and for booleans
+    `text.strip().lower() in ('true', '1')`; calling the `None` of an unknown type is a TypeError.
+    The value is returned as a rational (0 for a string). -/
+def convert (num : String → Option Rat) (t : Option PType) (text : String) : Except PyErr Rat :=
+  match t with
+  | none => .error .typeError
+  | some .bool => .ok (if trimLower text = "true" ∨ trimLower text = "1" then 1 else 0)
+  | some .int => match num text with
     | some r => if r.den = 1 then .ok r else .error .valueError
     | none => .error .valueError
-  | .float => match num text with
+  | some .float => match num text with
     | some r => .ok r
     | none => .error .valueError
+  | some .str => .ok 0
 
 def isNode (c : Child) : Bool := endsWith c.tag "node"
 def isEdge (c : Child) : Bool := !isNode c && endsWith c.tag "edge"
@@ -88,30 +116,79 @@ def duplicated (symmetrize : Bool) (c : Child) : Bool :=
   | none => symmetrize
 
 structure WeightSpec where
-  kind : Kind
+  ptype : Option PType
   id : Option String
   default : Rat
 
-/-- pass 2: the last key named `weight_key` decides -/
-def weightSpec (num : String → Option Rat) (weightKey : String) :
-    List Key → WeightSpec → Except PyErr WeightSpec
-  | [], ws => .ok ws
-  | k :: ks, ws =>
+def WeightSpec.kind (ws : WeightSpec) : Kind := kindOf ws.ptype
+
+/-- a key that does not carry the weight: `keys[id] = [attribute_name, attribute_type]`, and its `for` -/
+structure OtherKey where
+  id : String
+  name : String
+  ptype : Option PType
+  for_ : String
+deriving Repr
+
+/-- every text converts (`attribute_type(text)` for each `<default>` child); the last value -/
+def convertAll (num : String → Option Rat) (t : Option PType) : List String → Option Rat → Except PyErr (Option Rat)
+  | [], acc => .ok acc
+  | x :: xs, _ =>
+    match convert num t x with
+    | .error e => .error e
+    | .ok v => convertAll num t xs (some v)
+
+/-- is this key the weight key: named `weight_key`, and not declared for nodes -/
+def isWeightKey (weightKey : String) (k : Key) : Bool :=
+  k.name == some weightKey && !(k.for_ == some "node")
+
+/-- pass 2 over the `key` elements: the last weight key decides type, id and default of the weights; the other
+    keys are registered (`keys[id]`), their defaults converted when they are declared for nodes or edges -/
+def scanKeys (num : String → Option Rat) (weightKey : String) :
+    List Key → WeightSpec → List OtherKey → Except PyErr (WeightSpec × List OtherKey)
+  | [], ws, others => .ok (ws, others)
+  | k :: ks, ws, others =>
     match k.name, k.type with
     | some name, some type =>
-      if name = weightKey then
-        match kindOfType type, k.id with
-        | some kind, some id =>
-          -- `default_weight = attribute_type(text)` for every default child, the last one stays
-          match k.defaults.foldl (fun acc t => match acc with
-              | .error e => .error e
-              | .ok _ => (convert num kind t).map some) (.ok none : Except PyErr (Option Rat)) with
+      if isWeightKey weightKey k then
+        match k.id with
+        | none => .error .keyError
+        | some id =>
+          match convertAll num (ptypeOf type) k.defaults none with
           | .error e => .error e
-          | .ok d => weightSpec num weightKey ks ⟨kind, some id, d.getD ws.default⟩
-        | _, none => .error .keyError
-        | none, _ => .error .valueError
-      else weightSpec num weightKey ks ws
+          | .ok d => scanKeys num weightKey ks ⟨ptypeOf type, some id, d.getD ws.default⟩ others
+      else
+        match k.for_ with
+        | none => .error .keyError
+        | some fr =>
+          match (if fr = "node" ∨ fr = "edge" then convertAll num (ptypeOf type) k.defaults none else .ok none) with
+          | .error e => .error e
+          | .ok _ =>
+            match k.id with
+            | none => .error .keyError
+            | some id => scanKeys num weightKey ks ws (others ++ [⟨id, name, ptypeOf type, fr⟩])
     | _, _ => .error .keyError
+
+/-- `data.<kind>_attribute[keys[k][0]][i] = parse_value(keys[k][1], text)` for a `<data key=k>` child that is
+    not the weight: the key must be registered, the text must convert, the container of that element kind must
+    exist (some key declared for it) and hold an array of that name -/
+def otherData (num : String → Option Rat) (others : List OtherKey) (kind : String) (k text : String) :
+    Except PyErr Unit :=
+  match others.reverse.find? (fun o => o.id = k) with
+  | none => .error .keyError
+  | some o =>
+    match convert num o.ptype text with
+    | .error e => .error e
+    | .ok _ =>
+      if !others.any (fun o' => o'.for_ = kind) then .error .attributeError
+      else if !others.any (fun o' => o'.for_ = kind ∧ o'.name = o.name) then .error .keyError
+      else .ok ()
+
+/-- the `<data>` children of the node elements -/
+def nodesData (num : String → Option Rat) (others : List OtherKey) (nodes : List Child) : Except PyErr Unit :=
+  nodes.foldl (fun acc c => c.data.foldl (fun acc d => match acc with
+    | .error e => .error e
+    | .ok _ => otherData num others "node" d.1 d.2) acc) (.ok ())
 
 /-- the node number of an end point of an edge -/
 def endpoint (naming : Bool) (nodeIds : List String) (parseNat : String → Option Nat) (s : Option String) :
@@ -130,21 +207,22 @@ def endpoint (naming : Bool) (nodeIds : List String) (parseNat : String → Opti
       | none => .error .valueError
 
 /-- the weight of an edge: the last `<data>` child carrying the weight key, else the default -/
-def edgeWeight (num : String → Option Rat) (ws : WeightSpec) (otherKeys : List String) (c : Child) :
+def edgeWeight (num : String → Option Rat) (ws : WeightSpec) (others : List OtherKey) (c : Child) :
     Except PyErr Rat :=
   c.data.foldl (fun acc d => match acc with
     | .error e => .error e
     | .ok w =>
-      if some d.1 = ws.id then convert num ws.kind d.2
-      else if otherKeys.contains d.1 then .ok w
-      else .error .keyError) (.ok ws.default)
+      if some d.1 = ws.id then convert num ws.ptype d.2
+      else match otherData num others "edge" d.1 d.2 with
+        | .error e => .error e
+        | .ok _ => .ok w) (.ok ws.default)
 
 structure Result where
   matrix : Coo
   names : Option (List String)
 
 /-- the COO triples in the order the code fills `row`, `col`, `dat` -/
-def triples (num : String → Option Rat) (parseNat : String → Option Nat) (ws : WeightSpec) (otherKeys : List String)
+def triples (num : String → Option Rat) (parseNat : String → Option Nat) (ws : WeightSpec) (otherKeys : List OtherKey)
     (naming symmetrize : Bool) (nodeIds : List String) : List Child → Except PyErr (List (Nat × Nat × Rat))
   | [] => .ok []
   | c :: cs =>
@@ -167,33 +245,32 @@ def Doc.nodes (doc : Doc) : List Child := doc.children.filter isNode
 def Doc.edges (doc : Doc) : List Child := doc.children.filter isEdge
 def Doc.nodeIds (doc : Doc) : List String := doc.nodes.map fun c => c.id.getD ""
 
-/-- ids of the keys that do not carry the weight -/
-def Doc.otherKeys (doc : Doc) (weightKey : String) : List String :=
-  doc.keys.filterMap fun k => if k.name = some weightKey then none else k.id
-
 /-- `from_graphml(file, weight_key)` -/
 def fromGraphml (num : String → Option Rat) (parseNat : String → Option Nat) (weightKey : String) (doc : Doc) :
     Except PyErr Result :=
   if !doc.hasGraph then
     -- keys are still read (their errors come first), then `ValueError('No graph defined')`
-    match weightSpec num weightKey doc.keys ⟨.bool, none, 1⟩ with
+    match scanKeys num weightKey doc.keys ⟨some .bool, none, 1⟩ [] with
     | .error e => .error e
     | .ok _ => .error .valueError
   else
     match doc.edgedefault with
     | none => .error .keyError
     | some _ =>
-      match weightSpec num weightKey doc.keys ⟨.bool, none, 1⟩ with
+      match scanKeys num weightKey doc.keys ⟨some .bool, none, 1⟩ [] with
       | .error e => .error e
-      | .ok ws =>
+      | .ok (ws, others) =>
         -- `node.attrib['id']` is read only when the nodes are named
         if doc.naming && doc.nodes.any (fun c => c.id.isNone) then .error .keyError
         else
-          match triples num parseNat ws (doc.otherKeys weightKey) doc.naming doc.symmetrize doc.nodeIds doc.edges with
+          match nodesData num others doc.nodes with
           | .error e => .error e
-          | .ok ts =>
-            let n := doc.nodes.length
-            if ts.any (fun t => decide (n ≤ t.1) || decide (n ≤ t.2.1)) then .error .valueError
-            else .ok ⟨csrOf ⟨n, n, ws.kind, ts⟩, if doc.naming then some doc.nodeIds else none⟩
+          | .ok _ =>
+            match triples num parseNat ws others doc.naming doc.symmetrize doc.nodeIds doc.edges with
+            | .error e => .error e
+            | .ok ts =>
+              let n := doc.nodes.length
+              if ts.any (fun t => decide (n ≤ t.1) || decide (n ≤ t.2.1)) then .error .valueError
+              else .ok ⟨csrOf ⟨n, n, ws.kind, ts⟩, if doc.naming then some doc.nodeIds else none⟩
 
 end SkNet.GraphML
